@@ -2,7 +2,7 @@
 // single-line hook calls into the source text (line numbers are preserved):
 //
 //	R1  range over a map            -> keys come from simrt.MapOrder (simulator-chosen order)
-//	R2  function entry              -> simrt.Enter (yield point)
+//	R2  function entry, loop body   -> simrt.Enter (yield point)
 //	R3  statement touching a package-level variable -> simrt.Access (yield point + access log)
 //	R4  per package: registration of the address of every package-level variable
 //	R5  sync.Mutex/RWMutex/Once/WaitGroup calls and go statements -> simrt shims;
@@ -413,7 +413,16 @@ func instrumentFile(label string, p *packages.Package, f *ast.File, fc *fileCtx)
 				id := newSite("enter", fc, label, x.Pos(), funcName, "")
 				fc.insert(x.Body.Lbrace+1, fmt.Sprintf(" __simrt.Enter(%d);", id), 0)
 			}
+		case *ast.ForStmt:
+			if x.Body != nil {
+				id := newSite("loop", fc, label, x.Pos(), funcName, "")
+				fc.insert(x.Body.Lbrace+1, fmt.Sprintf(" __simrt.Enter(%d);", id), 3)
+			}
 		case *ast.RangeStmt:
+			if x.Body != nil {
+				id := newSite("loop", fc, label, x.Pos(), funcName, "")
+				fc.insert(x.Body.Lbrace+1, fmt.Sprintf(" __simrt.Enter(%d);", id), 3)
+			}
 			if t := info.TypeOf(x.X); t != nil {
 				if _, ok := t.Underlying().(*types.Map); ok {
 					rewriteMapRange(label, p, fc, x, labeled[x], funcName)
